@@ -163,3 +163,88 @@ def prox_objective_block(pen, x, s, g, p, rng, n=400):
     if arg is None:
         return None
     return dict(better=list(map(float, arg)), objective=best, prox_objective=mine)
+
+
+# ------------------------------------------------------------------ documented datafit losses
+def cox_nll(y, z, efron):
+    """documented negative log partial likelihood / n (doc/tutorials/cox_datafit.rst): Breslow or Efron ties"""
+    tm, s = y[:, 0], y[:, 1]
+    n = len(z)
+    e = np.exp(z)
+    out = 0.0
+    if not efron:
+        for i in range(n):
+            if s[i]:
+                out += -z[i] + math.log(np.sum(e[tm >= tm[i]]))
+        return out / n
+    for t in np.unique(tm[s != 0]):
+        H = np.where((tm == t) & (s != 0))[0]
+        R = np.sum(e[tm >= t])
+        SH = np.sum(e[H])
+        for l, i in enumerate(H):
+            out += -z[i] + math.log(R - l / len(H) * SH)
+    return out / n
+
+
+def doc_loss(name, P, y, z):
+    y = np.asarray(y, dtype=float)
+    n = len(z)
+    if name in ("Quadratic", "QuadraticGroup"):
+        return float(np.sum((y - z) ** 2) / (2 * n))
+    if name == "WeightedQuadratic":
+        sw = P["sample_weights"]
+        return float(np.sum(sw * (y - z) ** 2) / (2 * np.sum(sw)))
+    if name in ("Logistic", "LogisticGroup"):
+        return float(np.sum(np.log1p(np.exp(-y * z))) / n)
+    if name == "Huber":
+        d = P["delta"]
+        r = np.abs(y - z)
+        return float(np.sum(np.where(r < d, 0.5 * r ** 2, d * r - 0.5 * d ** 2)) / n)
+    if name == "Poisson":
+        return float(np.sum(np.exp(z) - y * z) / n)
+    if name == "Gamma":
+        return float(np.sum(z + y * np.exp(-z) - 1 - np.log(y)) / n)
+    if name == "Cox":
+        return cox_nll(y, z, False)
+    if name == "CoxEfron":
+        return cox_nll(y, z, True)
+    if name == "SqrtQuadratic":
+        return float(np.linalg.norm(y - z))
+    raise KeyError(name)
+
+
+def datafit_instances(rng):
+    """(name, make(P) -> compiled datafit, ygen(rng, n), params(n))"""
+    import skglm.datafits.single_task as st
+    import skglm.datafits.group as gr
+    cc = _cc()
+
+    def greal(rng, n):
+        return np.array([rng.gauss(0, 1) + 0.5 for _ in range(n)])
+
+    def gsign(rng, n):
+        return np.array([rng.choice([-1.0, 1.0]) for _ in range(n)])
+
+    def gcount(rng, n):
+        return np.array([float(rng.randint(0, 4)) for _ in range(n)])
+
+    def gpos(rng, n):
+        return np.array([rng.choice([0.5, 1.0, 2.0, 3.5]) for _ in range(n)])
+
+    def gsurv(rng, n):
+        tm = np.array([float(rng.randint(1, 4)) for _ in range(n)])      # many ties
+        s = np.array([1.0 if rng.random() < 0.7 else 0.0 for _ in range(n)])
+        if not s.any():
+            s[0] = 1.0
+        return np.column_stack([tm, s])
+    return [
+        ("Quadratic", lambda P: cc(st.Quadratic()), greal, lambda n: {}),
+        ("WeightedQuadratic", lambda P: cc(st.WeightedQuadratic(P["sample_weights"])), greal,
+         lambda n: dict(sample_weights=np.array([rng.choice([0.5, 1.0, 2.0, 3.0]) for _ in range(n)]))),
+        ("Logistic", lambda P: cc(st.Logistic()), gsign, lambda n: {}),
+        ("Huber", lambda P: cc(st.Huber(P["delta"])), greal, lambda n: dict(delta=rng.choice([0.3, 1.0, 2.5]))),
+        ("Poisson", lambda P: cc(st.Poisson()), gcount, lambda n: {}),
+        ("Gamma", lambda P: cc(st.Gamma()), gpos, lambda n: {}),
+        ("Cox", lambda P: cc(st.Cox(False)), gsurv, lambda n: {}),
+        ("CoxEfron", lambda P: cc(st.Cox(True)), gsurv, lambda n: {}),
+    ]
